@@ -89,6 +89,9 @@ var versions = map[string]map[string][]rdef{
 		// two versions that differ in nothing but allow_encoded_slashes (an update between them must take effect)
 		"vh": {{id: "r1", path: "/e/:n", ppGlob: "s*x", slashes: "no_decode"}},
 		"vi": {{id: "r1", path: "/e/:n", ppGlob: "s*x", slashes: "on"}},
+		// a path that is a prefix (inside a segment) of B's /us: when it goes, the two nodes are merged into one, which is
+		// the node of a rule that does not allow backtracking
+		"vj": {{id: "r1", path: "/u"}},
 	},
 	"B": {
 		"w1": {{id: "q1", path: "/z", methods: nil, bt: false, twoRoutes: false}},
@@ -100,19 +103,20 @@ var versions = map[string]map[string][]rdef{
 		"w6": {{id: "q1", path: "/x/k", methods: nil, bt: false, twoRoutes: false}, {id: "q2", path: "/**", methods: nil, bt: false, twoRoutes: false}},
 		"w7": {{id: "s1", path: "/m", methods: nil, bt: false, twoRoutes: false}},
 		"w8": {{id: "q1", path: "/f/:n", ppGlob: "s-*"}},
+		"w9": {{id: "q1", path: "/us", methods: []string{"GET"}, bt: false}, {id: "q2", path: "/:p", bt: false}},
 	},
 }
 
 var verOrder = map[string][]string{
-	"A": {"v1", "v2", "v3", "v4", "v5", "v6", "v7", "v8", "v9", "va", "vb", "vc", "vd", "ve", "vf", "vg", "vh", "vi"},
-	"B": {"w1", "w2", "w3", "w4", "w5", "w6", "w7", "w8"},
+	"A": {"v1", "v2", "v3", "v4", "v5", "v6", "v7", "v8", "v9", "va", "vb", "vc", "vd", "ve", "vf", "vg", "vh", "vi", "vj"},
+	"B": {"w1", "w2", "w3", "w4", "w5", "w6", "w7", "w8", "w9"},
 }
 
 var probePaths = []string{"/x", "/y", "/z", "/zz", "/x/1", "/x/1/2", "/z/1", "/o", "/xy", "/w/1", "/w/1/foo", "/d/v", "/d/o", "/x/k", "/m",
 	// "<host>|<path>": a probe with another host than the default "h"
 	"/f/s-a.b", "/f/t", "s-a.b|/g", "s-a|/g",
 	// an encoded slash inside a captured value: kept as %2F under no_decode (the glob s*x holds), a real slash under on
-	"/e/s%2Fx", "/e/sx"}
+	"/e/s%2Fx", "/e/sx", "/us", "/u"}
 
 func ruleSet(src, ver string) *rulecfg.RuleSet {
 	rs := &rulecfg.RuleSet{Version: rulecfg.CurrentRuleSetVersion, Name: ver}
